@@ -56,7 +56,7 @@ func VerifH_C04_Inbound() {
 	conn := &c04Conn{log: &log}
 	cli := &BaseClient{Transport: conn}
 	cli.init()
-	hkind := verifChoice("handler", 3) // 0 a recording handler, 1 none, 2 a handler that also uses its client (forwards the message)
+	hkind := verifChoice("handler", 4) // 0 a recording handler, 1 none, 2 a handler that also uses its client (forwards the message), 3 a handler that rewrites the message it now owns
 	withHandler := hkind != 1
 	nForward := 0
 	if withHandler {
@@ -66,6 +66,15 @@ func VerifH_C04_Inbound() {
 				tag = m.Payload[0]
 			}
 			log = append(log, c04Event{kind: 'H', id: m.ID, tag: tag, typ: byte(m.QoS)})
+			if hkind == 3 {
+				// ownership was transferred: the handler may do what it likes with the message (e.g. clear the
+				// identifier before re-publishing it elsewhere); the flow is completed with the identifiers of the packets
+				m.ID = 0
+				m.Topic = "rewritten"
+				if len(m.Payload) > 0 {
+					m.Payload[0] ^= 0xFF
+				}
+			}
 			if hkind == 2 {
 				nForward++
 				_ = cli.Publish(context.Background(), &Message{Topic: "fwd", QoS: QoS0, Payload: []byte{tag}})
